@@ -524,6 +524,8 @@ def main(argv=None):
     ap.add_argument("--runs", type=int, default=None)
     ap.add_argument("--workers", type=int, default=None)
     ap.add_argument("--replay", default=None)
+    ap.add_argument("--digests", default=None, help="determinism aid: print run digests for the given runs, e.g. 0-15")
+    ap.add_argument("--repeat", type=int, default=1)
     ap.add_argument("--no-reference", action="store_true")
     args = ap.parse_args(argv)
     if args.replay:
@@ -531,6 +533,10 @@ def main(argv=None):
     env.bootstrap(threads=1)
     if args.replay:
         return runner.replay(factory(), args.replay)
+    if args.digests:
+        chk = factory()
+        chk.tier = args.tier
+        return runner.print_digests(chk, runner.parse_runs(args.digests), args.repeat)
     runs = args.runs if args.runs is not None else (182 if args.tier == "quick" else 4000)
     if args.no_reference:
         C17Check.with_reference = False
